@@ -23,7 +23,10 @@ def replay_program(inp, pools):
     if kind.startswith("sq:"):
         epoch, _, src = f[1].partition(" ")
         prog = list(pools.get(epoch, []))
-        if kind == "sq:twice":
+        if kind == "sq:rec":
+            d, _, call = src.partition(" ;; ")
+            prog += [d, call]
+        elif kind == "sq:twice":
             prog.append(src)   # c15rec is a host function of the harness: records the value, then updates arrays/hashes in place
         elif kind == "sq:api":
             prog.append("; template built with Go constructors: (syntaxQuote T), T = " + f[3])
@@ -33,6 +36,8 @@ def replay_program(inp, pools):
     if kind == "mac":
         d, _, call = f[1].partition(" ;; ")
         return ["(def g0 11)", "(def gl (list 1 2 3))", "(def a0 3)", d, call]
+    if kind == "hist":
+        return f[2].split(" ;; ")   # every step is its own evaluation; steps starting with ? are the observations
     if kind == "call":
         return ["(def g0 11)", "(def gl (list 1 2 3))", "(def a0 3)", f[3], f[4]]
     return []
@@ -76,7 +81,8 @@ def main(argv):
             c.coverage["compared_against_specification"] = nprop
             c.coverage["traces_validated_against_impl"] = n
     # minimise: report the shortest failing inputs, one per kind/route
-    prop_fail.sort(key=lambda f: (len(f["replay_program"][-1]) if f["replay_program"] else 0, len(f["input"])))
+    prop_fail.sort(key=lambda f: (sum(len(x) for x in f["replay_program"]) if f["input"].startswith("hist|")
+                                  else (len(f["replay_program"][-1]) if f["replay_program"] else 0), len(f["input"])))
     seen = set()
     for f in prop_fail:
         key = f["input"].split("|")[0]
